@@ -258,7 +258,7 @@ def make_names(rng, length, dup=False, numeric=False):
     return list(ns), "list"
 
 
-def check_tree(chk, key, est, d, X, rng, replay):
+def check_tree(chk, key, est, d, X, rng, replay, orphans=False):
     """All L2/L3 obligations for one fitted estimator `est` whose points have d columns."""
     tree = est.tree_
     tenc = enc_tree(tree)
@@ -339,6 +339,14 @@ def check_tree(chk, key, est, d, X, rng, replay):
             break
 
     # ---- names variants
+    # The guard looks at every feature stored in the arrays.  For a fitted tree these are exactly the
+    # features of the printed rules; only a tree whose inner node was split again (never done by fit,
+    # stream 'built' flags it) also stores features of unreachable nodes.
+    stored = sorted({int(f) for f in tree.features if f is not None})
+    if stored != used:
+        if not orphans:
+            chk.fail(key + ":unprinted-feature", f"features stored in the arrays {stored} differ from the features of the printed rules {used}", replay, layer="L3")
+        used = stored
     mx = max(used) if used else -1
     lens = {mx + 1, d, d + int(rng.integers(1, 4))}
     if mx >= 0:
@@ -540,7 +548,7 @@ def stream_built(chk, i, rng):
     X = rng.normal(size=(8, d)) * 10
     est = Kauri(max_clusters=2).fit(np.array([[0.0] * d, [1.0] * d]))
     est.tree_ = tree
-    info = check_tree(chk, "built", est, d, X, rng, replay)
+    info = check_tree(chk, "built", est, d, X, rng, replay, orphans=orphan)
     chk.dist["built:orphans" if orphan else "built:leaf-splits"] += 1
     if info is not None:
         chk.dist[f"built:depth={min(info['depth'], 6)}{'+' if info['depth'] > 6 else ''}"] += 1
@@ -611,7 +619,7 @@ def stream_guards(chk, i, rng):
     chk.count(("guards", kind, replay["object"], replay["names"]))
 
 
-STREAMS = {"fit": (stream_fit, 150, 2500), "built": (stream_built, 150, 2500), "guards": (stream_guards, 100, 600)}
+STREAMS = {"fit": (stream_fit, 500, 8000), "built": (stream_built, 400, 8000), "guards": (stream_guards, 150, 1000)}
 
 
 def main():
